@@ -5,7 +5,7 @@ namespace Driver.ClientsD
 open Hpfeeds Driver
 
 structure St where
-  acfg : AioClient.Cfg := ⟨[], [], Sha1.sha1⟩
+  acfg : AioClient.Cfg := { ident := [], secret := [], H := Sha1.sha1 }
   aio : AioClient.State := {}
 
 def aOut : AioClient.Out → String
@@ -18,6 +18,7 @@ def aOut : AioClient.Out → String
 
 def aEv : List String → Option AioClient.Ev
   | ["idle"] => some .idle
+  | ["start"] => some .start
   | ["sub", c] => do some (.sub (← unhex c))
   | ["unsub", c] => do some (.unsub (← unhex c))
   | ["pub", c, p] => do some (.pub (← unhex c) (← unhex p))
@@ -34,12 +35,17 @@ def step (st : St) (toks : List String) : St × String :=
   match toks with
   | ["a.reset", i, s] =>
     match unhex i, unhex s with
-    | some i, some s => ({ st with acfg := ⟨i, s, Sha1.sha1⟩, aio := {} }, "ok")
+    | some i, some s => ({ st with acfg := { ident := i, secret := s, H := Sha1.sha1 }, aio := {} }, "ok")
     | _, _ => (st, "bad-op")
-  | "a.ev" :: rest =>
+  | ["t.reset", i, s] =>
+    match unhex i, unhex s with
+    | some i, some s =>
+      ({ st with acfg := { ident := i, secret := s, H := Sha1.sha1, autoStart := false, lossDelay := 1000 }, aio := {} }, "ok")
+    | _, _ => (st, "bad-op")
+  | "t.ev" :: rest | "a.ev" :: rest =>
     match aEv rest with
     | some e =>
-      let ok := AioClient.okEv (AioClient.kick st.aio).1 e
+      let ok := AioClient.okEv (AioClient.kick st.acfg st.aio).1 e
       let r := AioClient.step st.acfg st.aio e
       ({ st with aio := r.1 }, (if ok then "ok " else "invalid ") ++ String.intercalate ";" (r.2.map aOut))
     | none => (st, "bad-op")
